@@ -116,6 +116,82 @@ def c08() -> int:
     return c.finish()
 
 
+def c09() -> int:
+    c = Check("C09", "explicit-state BFS of the real step function (FSX); on every reached state every instruction of the full menu is applied through apply_instructions (atomicity), and every pair of instructions from two generators is stepped (precedence)")
+    quick = tier() == "quick"
+    fsx(c, RES + ({"variant": "core", "name": "W-res/atomic"},), ("hivemc.bundles", "c09_atomicity", {}), K=2, H=6 if quick else 8,
+        needs=["c09:refused:ChargeStation", "c09:refused:ReserveBase", "c09:refused:ChargeBase", "c09:refused:DispatchStation", "c09:refused:DispatchTrip", "c09:entered:ChargeBase"])
+    fsx(c, RES + ({"variant": "core", "name": "W-res/atomic-pairs", "atomic_pairs": True},), ("hivemc.bundles", "c09_atomicity", {}), K=1, H=4 if quick else 5,
+        needs=["c09:pairs"])
+    fsx(c, ("hivemc.w_prec", "make", {}), ("hivemc.bundles", "c09_precedence", {}), K=2 if quick else 4, H=6 if quick else 7,
+        needs=["c09:winner:driver", "c09:winner:G1", "c09:winner:G2", "c09:both_generators_same_vehicle"])
+    return c.finish()
+
+
+def _c10_config(cfg):
+    import logging
+
+    logging.disable(logging.CRITICAL)
+    from .fsx import explore
+
+    K, H, kw = cfg
+    res = explore(("hivemc.w_mem", "make", kw), ("hivemc.bundles", "c10", {}), K=K, H=H, workers=1)
+    from .worlds import history_to_json
+
+    return {
+        "kw": kw, "states": res.states, "transitions": res.transitions, "replays": res.replays, "cov": dict(res.cov),
+        "outcomes": len(res.outcomes), "samples": [history_to_json(h) for h in res.samples[:1]],
+        "violations": [(list(sig[1:]), v.msg, history_to_json(v.history), v.world) for sig, v in res.violations.items()],
+    }
+
+
+def c10() -> int:
+    import itertools
+    from collections import Counter
+
+    from . import seed
+    from .enumrun import pmap, rotate
+    from .report import Finding
+
+    c = Check("C10", "explicit-state BFS of the real step function (FSX), one exploration per membership assignment (exhaustive over the assignment alphabet)")
+    quick = tier() == "quick"
+    M = ("none", "f1", "f2", "both")
+    configs = []
+    if quick:
+        for v0, s0, b0, r0 in itertools.product(M, M, M, ("f1", "f2")):
+            configs.append((2, 5, {"v0": v0, "v1": "f1", "s0": s0, "b0": b0, "bs": b0, "r0": r0}))
+        for v1 in ("none", "f2", "both"):
+            configs.append((2, 5, {"v0": "f1", "v1": v1, "s0": "f2", "b0": "f1", "bs": "f2", "r0": "f2"}))
+    else:
+        for v0, v1, s0, b0, bs, r0 in itertools.product(M, M, M, M, M, ("f1", "f2")):
+            configs.append((2, 5, {"v0": v0, "v1": v1, "s0": s0, "b0": b0, "bs": bs, "r0": r0}))
+    results = pmap(_c10_config, rotate(configs, seed()))
+    cov = Counter()
+    for r in results:
+        cov.update(r["cov"])
+        for sig, msg, hist, world in r["violations"]:
+            c.add(Finding("C10", sig, f"[{world}] {msg} (history: {hist})", {"engine": "fsx", "world_spec": ["hivemc.w_mem", "make", r["kw"]], "monitor_spec": ["hivemc.bundles", "c10", {}], "history": hist}))
+    c.coverage.update({
+        "states": sum(r["states"] for r in results),
+        "transitions": sum(r["transitions"] for r in results),
+        "traces_validated_against_impl": sum(r["replays"] for r in results),
+        "membership_configurations": len(configs),
+        "bounds": {"K": 2, "H": 5},
+        "coverage_matrix": {k: v for k, v in sorted(cov.items()) if k.startswith("c10:")},
+        "samples": [{"world": r["kw"], "history": r["samples"][0]} for r in results[:3] if r["samples"]],
+    })
+    for cell in ("c10:activity_with_target:DispatchTrip", "c10:activity_with_target:ChargingStation", "c10:activity_with_target:ReserveBase",
+                 "c10:activity_with_target:ChargingBase", "c10:builtin:Dispatcher:DispatchTrip", "c10:builtin:ChargingFleetManager:DispatchStation",
+                 "c10:builtin:driver:DispatchBase", "c10:builtin:driver:ChargeBase"):
+        if not cov.get(cell):
+            c.vacuous.append(cell)
+    c.exhaustive = False
+    c.assumptions += ["for ChargingBase the membership judged is the base's (the statement's 'charging at a ... base'); a base whose attached station belongs to another fleet is counted, not judged",
+                      "requests carry exactly one fleet (file-admissible when fleets exist)"]
+    log(f"  C10: {len(configs)} membership configurations, {c.coverage['states']} states, {c.coverage['transitions']} transitions")
+    return c.finish()
+
+
 def c11() -> int:
     from .enum_timed import c11 as run
 
@@ -152,6 +228,27 @@ def c15() -> int:
     return run()
 
 
+def c16() -> int:
+    c = Check("C16", "explicit-state BFS of the real step function (FSX); every transition wrapped with deep fingerprints of the retained states and executed twice")
+    c.assumptions += ["a SimulationState is 'read' through a deep structural walk that follows mutable containers and objects of the library (road network included)"]
+    quick = tier() == "quick"
+    fsx(c, ("hivemc.w_imm", "make_res", {"variant": "core"}), ("hivemc.bundles", "c16", {}), K=2, H=6 if quick else 8, needs=["c16:apply_calls"])
+    fsx(c, ("hivemc.w_imm", "make_req", {}), ("hivemc.bundles", "c16", {}), K=2 if quick else 3, H=7 if quick else 9, needs=["c16:apply_calls"])
+    return c.finish()
+
+
+def c18() -> int:
+    c = Check("C18", "explicit-state BFS of the real step function (FSX), deviation-bounded")
+    c.assumptions += ["only plugs taken through the queue's own default transition are judged (no instruction addressed to that vehicle in the step); controller-directed plug-ins are counted, not judged (DESIGN.md 4/C18)"]
+    quick = tier() == "quick"
+    FIFO = ("hivemc.w_fifo", "make")
+    needs = ["c18:grant_while_another_keeps_waiting", "c18:abandoned_queue", "c18:grant_by_queue", "c18:tie_on_enqueue_time"]
+    fsx(c, FIFO + ({},), ("hivemc.bundles", "c18", {}), K=4 if quick else 6, H=9 if quick else 12, needs=needs)
+    fsx(c, FIFO + ({"small": True},), ("hivemc.bundles", "c18", {}), K=3 if quick else 5, H=9 if quick else 12, needs=needs[:1])
+    fsx(c, FIFO + ({"plugs": ["DCFC", "LEVEL_2"]},), ("hivemc.bundles", "c18", {}), K=3 if quick else 5, H=8 if quick else 11, needs=needs[:1])
+    return c.finish()
+
+
 def c19() -> int:
     c = Check("C19", "explicit-state BFS of the real step function with the real file-writing handlers installed; event.log lines parsed back after every transition")
     c.assumptions += ["per-transition agreement between log lines and state deltas; whole-run sums follow by induction over paths",
@@ -170,4 +267,4 @@ def c20() -> int:
     return run()
 
 
-CHECKS = {"C19": c19, "C05": c05, "C15": c15, "C01": c01, "C20": c20, "C08": c08, "C12": c12, "C11": c11, "C04": c04, "C13": c13, "C14": c14, "C17": c17, "C02": c02, "C03": c03, "C07": c07}
+CHECKS = {"C10": c10, "C09": c09, "C16": c16, "C18": c18, "C19": c19, "C05": c05, "C15": c15, "C01": c01, "C20": c20, "C08": c08, "C12": c12, "C11": c11, "C04": c04, "C13": c13, "C14": c14, "C17": c17, "C02": c02, "C03": c03, "C07": c07}
